@@ -61,20 +61,27 @@ class C05(Prop):
                   "the model's run of every case whose programs contain no clear_with; "
                   "C05_spec_is_empty_true_completeness_on_model_no_clear: clause S3 for is_empty calls that return true (no push has its 503 "
                   "position below the call's 520 position) on the same cases. "
+                  "C05_spec_is_empty_false_needs_publication_on_model: clause S3 for is_empty calls that return false, on every case (some push "
+                  "has its 503 position below the call's last read, Spec.empty_end). C05_spec_is_empty_completeness_on_model_no_clear: both "
+                  "is_empty halves. C05_spec_ok_on_model_no_clear: THE CONJUNCTION for programs without clear_with - spec_ok (all of S0-S5) "
+                  "accepts the model's run of every case whose programs contain no clear_with (such a case is never in the late-claim class: "
+                  "C05_no_clear_not_late_claim). "
                   "The open finding is a theorem "
                   "(C05_late_claim_refutes) and so are the two repaired defects (the model of the code before each fix violates spec_ok outside "
                   "the late-claim class, the model after the fix does not). Tied to /repo by (i) replaying generated schedules on the real "
                   "AtomicBucket<Val> through yield points at every shared-memory access and comparing step trace, every slice handed to every "
                   "callback, every is_empty result and a final sequential read, with the executable property spec_ok evaluated on the "
                   "implementation's outputs, and (ii) a free-running stress engine on real threads judged by the same property.")
-    level_note = ("NOT proved: C05_spec_completeness_on_model (clause S3 of the trace-level checker) in general, and therefore the conjunction "
-                  "C05_spec_ok_on_model. All other clauses are proved on the model's run: S0, S1, S2, S4 for every case "
-                  "(C05_spec_ok_on_model_partial2), S5 outside the late-claim class when the run is done (C05_spec_conservation_on_model). Of S3 "
-                  "proved, in cases whose programs contain no clear_with: data_with calls (C05_spec_snapshot_completeness_on_model_no_clear) and "
-                  "is_empty calls that return true (C05_spec_is_empty_true_completeness_on_model_no_clear; 520 positions in the trace ledger, "
-                  "C05_is_empty_sound's chain-walk invariant along the trace). "
-                  "Missing of S3: is_empty calls that return false, in every case (`empty_end` restated with explicit state and a ledger 'a set "
-                  "bit has a 503 position in the trace'); data_with and is_empty = true calls in cases WITH clears (the 541 positions, the "
+    level_note = ("NOT proved: C05_spec_completeness_on_model (clause S3 of the trace-level checker) for cases WITH clear_with, and therefore the "
+                  "conjunction C05_spec_ok_on_model in general. Proved: the conjunction for every case whose programs contain no clear_with "
+                  "(C05_spec_ok_on_model_no_clear; no class hypothesis, C05_no_clear_not_late_claim). For every case, clears or not, these clauses are proved on the "
+                  "model's run: S0, S1, S2, S4 (C05_spec_ok_on_model_partial2), S5 outside the late-claim class when the run is done "
+                  "(C05_spec_conservation_on_model), and of S3 the is_empty = false clause "
+                  "(C05_spec_is_empty_false_needs_publication_on_model; conditional no-op rule of Common/InterleaveTraceCond, Spec.empty_end "
+                  "with explicit state, 'a set bitmap bit implies a 503 position'). In no-clear cases also: S3 for data_with calls "
+                  "(C05_spec_snapshot_completeness_on_model_no_clear) and for is_empty = true calls "
+                  "(C05_spec_is_empty_true_completeness_on_model_no_clear). "
+                  "Missing of S3: data_with and is_empty = true calls in cases WITH clears (the 541 positions, the "
                   "alignment of clear calls with their rcas, a detach ledger - which 541 detached which block - for the `clears` disjunct of "
                   "`accounts`); for those S3 is tied to the configuration-level "
                   "theorems only by evaluation (spec_ok on every replayed schedule, model agreeing step by step, stress oracle). Corrected oracle defect: "
